@@ -37,6 +37,7 @@ typedef struct qnode {
 	int window_open, window_onqueue, window_starts; uint64_t window_open_stamp;
 	// queue-specific model (C18)
 	void *spec[4];
+	char spec_dup[4], spec_temp[4];   // set by two threads at once (same value) / set by two threads at once and removed again before anything runs
 	char label[24];
 	// dispatch_set_target_queue on an active leaf queue (C03): new target, stamps of the call
 	int retarget_to; uint64_t rt_call, rt_ret;
